@@ -117,6 +117,8 @@ type Interp struct {
 	raceActor         int
 	raceCells         map[interface{}]*raceCell
 	onces             map[*Value]bool
+	illFormed         map[string]Term
+	utf8fixDeclared   bool
 	blobStrs          map[int]Term
 	blobByID          map[int]*Blob
 	hints             []string
